@@ -306,7 +306,12 @@ pub fn run(case: &C10Case, thorough: bool) -> CaseRes {
             // or deleted item is restored to its intact bytes (junk stays) and the refresh runs once more:
             // every one of these refreshes must report an error and leave the state alone, or show exactly
             // the state of the intact, causally complete items held at that moment.
-            for phase in ["first refresh", "second refresh", "third refresh", "refresh after the damaged items were restored", "refresh once more after the restore"] {
+            let phases: [&str; 6] = if case.split % 2 == 0 {
+                ["first refresh", "second refresh", "third refresh", "refresh after the damaged items were restored", "refresh once more after the restore", "reload at the end"]
+            } else {
+                ["first refresh", "reload on the damaged storage", "refresh after that reload", "refresh after the damaged items were restored", "reload after the restore", "refresh at the end"]
+            };
+            for phase in phases {
                 if phase == "refresh after the damaged items were restored" {
                     for (k, v) in &intact {
                         if store.get(k).as_ref() != Some(v) {
@@ -317,13 +322,18 @@ pub fn run(case: &C10Case, thorough: bool) -> CaseRes {
                 }
                 let now = store.snap();
                 let pre = obs(&live)?;
-                let r = match guard("refresh", || live.refresh()) {
+                let is_reload = phase.starts_with("reload");
+                let r = match guard(if is_reload { "reload" } else { "refresh" }, || if is_reload { live.reload() } else { live.refresh() }) {
                     Ok(r) => r,
                     Err(Fail::Panic { op, msg }) => return viol("C10", format!("{} aborted on damaged storage ({}): {}", op, phase, msg)),
                     Err(f) => return Err(f),
                 };
                 log.push(format!("live replica (prefix of {} items), {} -> {:?}", split, phase, r.as_ref().map_err(|e| e.to_string())));
                 match r {
+                    Err(_) if is_reload => {
+                        // a refused reload may leave the replica empty; what it shows is checked by the next phase
+                        *cnt.entry("reload_reported_error").or_insert(0) += 1;
+                    }
                     Err(_) => {
                         let post = obs(&live)?;
                         if post != pre {
